@@ -181,7 +181,9 @@ def _corruptions(ctx, rep, base):
     snap = os.path.join(base, "co.snap")
     shutil.copytree(path, snap, copy_function=shutil.copy2)
     for target in targets:
-        for cls in ("missing", "truncated", "garbage", "empty", "transient"):
+        for cls in ("missing", "truncated", "truncated-24", "truncated-60", "truncated-1", "garbage", "empty", "transient"):
+            if cls.startswith("truncated-") and not target.endswith(".avro"):
+                continue
             shutil.rmtree(path)
             shutil.copytree(snap, path, copy_function=shutil.copy2)
             full = os.path.join(path, target)
@@ -191,6 +193,12 @@ def _corruptions(ctx, rep, base):
             elif cls == "truncated":
                 data = open(full, "rb").read()
                 open(full, "wb").write(data[: max(1, len(data) // 3)])
+            elif cls.startswith("truncated-"):      # cut INSIDE the last Avro block (the header stays intact)
+                data = open(full, "rb").read()
+                cut = int(cls.split("-")[1])
+                if len(data) <= cut + 8:
+                    continue
+                open(full, "wb").write(data[: len(data) - cut])
             elif cls == "garbage":
                 open(full, "wb").write(b"\x00\xffnot a file of this kind{{{")
             elif cls == "empty":
@@ -289,17 +297,53 @@ def _marker_faults(ctx, rep, base):
     shutil.rmtree(path, ignore_errors=True)
 
 
+def _stale_recovery(ctx, rep, base):
+    """the pointer is unusable (garbage / missing / empty) on a table with MORE THAN NINE metadata versions: the collector works from
+    whatever version recovery picks — it must be the newest, or nothing reachable from the newest may go"""
+    for damage in ("garbage", "missing", "empty"):
+        path = os.path.join(base, f"sr-{damage}")
+        t = tablekit.create(path)
+        for i in range(13):
+            t.append_records(tablekit.rows(1, start=i * 10))
+            if i == 5:
+                with t.new_transaction() as tx:
+                    tx.delete_files(["/" + tablekit.data_paths(t)[0]])
+                    tx.commit()
+        reach = _reachable_all(path)
+        hp = os.path.join(path, "metadata.version-hint.text")
+        if damage == "missing":
+            os.remove(hp)
+        else:
+            open(hp, "wb").write(b"" if damage == "empty" else b"\x00not a pointer")
+        old = time.time() - 7200
+        for r, _d, fs in os.walk(path):
+            for fn in fs:
+                os.utime(os.path.join(r, fn), (old, old))
+        before = _files(path)
+        outcome = _run_gc(tablekit.load(path), Plan())
+        after = _files(path)
+        rep.evaluations += 1
+        rep.nontrivial(["stale-recovery", damage])
+        deleted = {d for d in before - after if not d.startswith("metadata/inflight/")}
+        case = {"kind": "stale-recovery", "pointer": damage, "versions": 15}
+        if deleted & reach:
+            rep.violate("C07:deleted-reachable-under-corruption", f"pointer {damage}, 15 metadata versions: the collection ({outcome}) deleted "
+                        f"{len(deleted & reach)} files reachable from the latest committed version, e.g. {sorted(deleted & reach)[:2]}", case)
+        shutil.rmtree(path, ignore_errors=True)
+
+
 def run(ctx, model_ok):
     rep = Report()
     rep.rule = ("a 3-snapshot table (append, append, partial delete with rewritten manifest) with aged orphans, an open transaction's in-flight "
                 "data file and an in-flight manifest of a commit in progress: EVERY single fault at every storage call of one collection run; every "
-                "corruption class {missing, truncated, garbage, empty, transient} × every reachable metadata-plane file + the current metadata "
+                "corruption class {missing, truncated to a third, cut 1 / 24 / 60 bytes inside the last Avro block, garbage, empty, transient} × every reachable metadata-plane file + the current metadata "
                 "file; escaping listing entries first/last in each prefix; marker faults (listing, stat, payload read, garbage / field-less payload). "
                 "non-trivial = the run deleted something.")
     base = scratch_dir("c07-")
     try:
         _single_faults(ctx, rep, base)
         _corruptions(ctx, rep, base)
+        _stale_recovery(ctx, rep, base)
         _escaping_listing(ctx, rep, base)
         _marker_faults(ctx, rep, base)
         rep.exhaustive = True
